@@ -79,9 +79,10 @@ type Case struct {
 
 // (the last five are other spellings of names that exist in some layers: not valid fs.FS paths,
 // so they are present in no layer)
-var defaultPaths = []string{".", "a", "d", "d/x", "d/y", "e", "e/z", "nope", "d/nope", "a/nope", "./a", "d/", "/a", "d//x", "d/../a"}
+var defaultPaths = []string{".", "a", "d", "d/x", "d/y", "e", "e/z", "nope", "d/nope", "a/nope", "./a", "d/", "/a", "d//x", "d/../a", "é", "Straße", "日本語", "日本語/二", "caf😀", "cafe"}
+
 // (a run of stars is one star to path.Match: "**/x" means "*/x", exactly one directory level)
-var defaultPatterns = []string{"*", "*/*", "d/*", "?", "[ad]*", "a", "d/x", "e/?", "nope*", "[", "*/x", "**", "**/*", "d/**", "**/x", "d**/*", ".*"}
+var defaultPatterns = []string{"*", "*/*", "d/*", "?", "[ad]*", "a", "d/x", "e/?", "nope*", "[", "*/x", "**", "**/*", "d/**", "**/x", "d**/*", ".*", "caf?", "Stra?e", "???", "?", "*/?", "日*", "[é日]*"}
 
 // closure adds implied parent directories to a layer description.
 func closure(l Layer) map[string]Entry {
@@ -725,7 +726,7 @@ func genLayer(t *rapid.T, idx int) Layer {
 		return Layer{Nil: true}
 	}
 	// (names that differ only in case are different names; dots, blanks and unicode are ordinary)
-	universe := []string{".a", ".d/x", "a", "b", "d", "d/x", "d/y", "d/s", "d/s/t", "e", "e/z", "d-b", "d-b/x", "d.o", "d.o/x", "A", "D", "D/x", "d/X", "e/Z", "a b", "é", "d/é.x"}
+	universe := []string{".a", ".d/x", "a", "b", "d", "d/x", "d/y", "d/s", "d/s/t", "e", "e/z", "d-b", "d-b/x", "d.o", "d.o/x", "A", "D", "D/x", "d/X", "e/Z", "a b", "é", "d/é.x", "Straße", "Ärzte/ß", "日本語", "日本語/二", "caf😀", "e\u0301"}
 	m := map[string]Entry{}
 	blocked := map[string]bool{}
 	for _, p := range universe {
@@ -863,6 +864,35 @@ func TestProp(t *testing.T) {
 				_, cls := classify(c)
 				if !run.Each(rec, "case-enum", c, true, append(cls, "names-differing-only-in-case"), check) {
 					okC = false
+				}
+			}
+		}
+	}
+
+	// exhaustive: names beyond ASCII (continuation bytes in 0x80-0x9F, three- and four-byte
+	// characters, a combining mark) present or absent per layer, queried by name and by ? patterns
+	if run.First() {
+		names := []string{"Straße", "Ärzte/ß", "日本語/二", "caf😀", "cafe", "e\u0301"}
+		var opts []Layer
+		for mask := 0; mask < 1<<len(names); mask++ {
+			m := map[string]Entry{}
+			for bit, p := range names {
+				if mask&(1<<bit) != 0 {
+					m[p] = Entry{Content: fmt.Sprintf("%s-%d", p, mask)}
+				}
+			}
+			opts = append(opts, Layer{Entries: m, Kind: []string{"", "strict", "sub"}[mask%3]})
+		}
+		okU := true
+		for ui, up := range opts {
+			for li, lo := range opts {
+				if !okU || (ui*7+li)%5 != 0 && !run.Thorough() {
+					continue
+				}
+				c := Case{Stack: []Layer{up, lo}, Paths: []string{".", "Straße", "Strasse", "Ärzte", "Ärzte/ß", "日本語", "日本語/二", "caf😀", "cafe", "café", "e\u0301", "é"}, Patterns: []string{"*", "*/*", "caf?", "Stra?e", "Stra??e", "???", "?", "*/?", "日*", "[Ä日]*/*", "e?", "?\u0301"}}
+				_, cls := classify(c)
+				if !run.Each(rec, "unicode-enum", c, true, append(cls, "names-beyond-ascii"), check) {
+					okU = false
 				}
 			}
 		}
